@@ -14,10 +14,15 @@ for d in sys.argv[1:]:
     if ap.returncode != 0:
         print('%s: patch does not apply: %s' % (d, ap.stderr[:200])); continue
     t0 = time.time()
+    evp = os.path.join(VERIF, 'evidence', pid + '.json')
+    saved = open(evp).read() if os.path.exists(evp) else None
     try:
         r = subprocess.run([os.path.join(VERIF, 'check'), pid], capture_output=True, text=True, cwd=VERIF)
     finally:
         subprocess.run(['git', '-C', '/repo', 'checkout', '--', '.'])
+        # the evidence file now describes the MUTATED tree: put the clean-tree record back
+        if saved is not None:
+            open(evp, 'w').write(saved)
     lines = [l for l in r.stdout.split('\n') if l.startswith(('VIOLATION', 'UNDECIDED', 'OK ', 'VIOLATED', 'KNOWN', '  failed'))]
     res = {'seed': os.path.basename(d), 'property': pid, 'check_rc': r.returncode, 'detected': r.returncode == 1,
            'report': lines[:12], 'wall_s': round(time.time() - t0, 1)}
